@@ -2164,7 +2164,7 @@ package sdf
 //@   prelet n0 = len(p.vlist)
 //@   prelet f = p.vlist[i].facets
 //@   prelet vx = p.vlist[i].vertex
-//@   forget 0 p0 c rm v0 v1 d1 d2 theta dtheta vc
+//@   forget 0 p0 c v0 v1 d1 d2 theta dtheta vc
 //@   invariant 0 rangeindex >= -1 && rangeindex < len(points) && len(points) == f + 1
 //@   invariant 0 rm[0] == rm[3] && rm[1] == -rm[2] && sq(rm[0]) + sq(rm[2]) == 1
 //@   invariant 0 rv.Length2() == p0.Sub(c).Length2()
@@ -2182,4 +2182,28 @@ package sdf
 //@   ensures [the-new-points-are-plain-absolute-vertices] forall k int :: r && 0 <= k && k <= f ==> p.vlist[i + k].vtype == pvNormal && !p.vlist[i + k].relative
 //@   ensures [all-on-one-circle-about-the-fillet-centre] forall k int :: r && 0 <= k && k <= f ==> p.vlist[i + k].vertex.Sub(c).Length2() == p0.Sub(c).Length2()
 //@   ensures [starting-at-the-tangent-point-on-the-edge-to-the-previous-vertex] r ==> p.vlist[i].vertex == p0
+//@ end
+
+//@ func Polygon.arcVertex
+//@   property C17
+//@   id arc-structure
+//@   requires 0 <= i && i < len(p.vlist) && len(p.vlist) >= 2
+//@   requires p.vlist[i].vtype == pvArc ==> p.vlist[i].facets >= 1
+//@   prelet n0 = len(p.vlist)
+//@   prelet f = p.vlist[i].facets
+//@   prelet wasarc = p.vlist[i].vtype == pvArc
+//@   forget 0 c ac bc dtheta n ba mid dMid dCenter side radius a b
+//@   invariant 0 rangeindex >= -1 && rangeindex < len(vlist) && len(vlist) == f - 1
+//@   invariant 0 m[0] == m[3] && m[1] == -m[2] && sq(m[0]) + sq(m[2]) == 1
+//@   invariant 0 rv.Length2() == a.Sub(c).Length2()
+//@   invariant 0 forall k int :: 0 <= k && k <= rangeindex ==> vlist[k].vertex.Sub(c).Length2() == a.Sub(c).Length2() && vlist[k].vtype == pvNormal && !vlist[k].relative
+//@   atentry 0 a == pv.vertex && b == v.vertex && mid == a.Add(b).MulScalar(0.5) && c == mid.Add(n.MulScalar(dCenter))
+//@   ensures [a-vertex-that-is-not-an-arc-end-leaves-the-list-untouched] !r ==> len(p.vlist) == n0
+//@   ensures [every-vertex-where-it-was] forall k int :: !r && 0 <= k && k < n0 ==> p.vlist[k].vertex == old(p.vlist[k].vertex) && p.vlist[k].relative == old(p.vlist[k].relative) && p.vlist[k].facets == old(p.vlist[k].facets) && p.vlist[k].radius == old(p.vlist[k].radius)
+//@   ensures [only-marked-vertices-become-arcs] r ==> wasarc
+//@   ensures [facets-minus-one-points-are-inserted-before-the-arc-end] r ==> len(p.vlist) == n0 + f - 1
+//@   ensures [vertices-before-kept] forall k int :: r && 0 <= k && k < i ==> p.vlist[k] == old(p.vlist[k])
+//@   ensures [the-arc-end-and-what-follows-kept-in-order-now-plain] forall k int :: r && i <= k && k < n0 ==> p.vlist[k + f - 1].vertex == old(p.vlist[k].vertex) && (k > i ==> p.vlist[k + f - 1] == old(p.vlist[k]))
+//@   ensures [the-arc-end-is-a-plain-vertex-afterwards] wasarc ==> p.vlist[ite(r, i + f - 1, i)].vtype == pvNormal
+//@   ensures [the-new-points-are-plain-and-on-the-circle-through-the-previous-vertex-about-the-arc-centre] forall k int :: r && 0 <= k && k < f - 1 ==> p.vlist[i + k].vtype == pvNormal && !p.vlist[i + k].relative && p.vlist[i + k].vertex.Sub(c).Length2() == a.Sub(c).Length2()
 //@ end
